@@ -74,7 +74,7 @@ func scopeSpaces(tier string) []scopeSpaceDef {
 		{"structure<=2-all-second-files", structure, 1, 2, otherVariants, 1, false},
 		{"structure<=2-on-one-line", structure, 1, 2, one, 1, true},
 		{"structure-3nodes", structure, 3, 3, one, 1, false},
-		{"structure-3nodes-on-one-line-first-80000", structure, 3, 3, one, 80000, true},
+		{"structure-3nodes-on-one-line-first-40000", structure, 3, 3, one, 40000, true},
 	}
 }
 
@@ -190,7 +190,7 @@ func init() {
 			"ASCII, one statement per line, so that column arithmetic (C04) cannot influence the verdict",
 		},
 		Flavour:      "prod+overlay",
-		QuickBudgetS: 150, ThoroughBudgetS: 1500,
+		QuickBudgetS: 420, ThoroughBudgetS: 1500,
 		Spaces: func(tier string) []*core.Space {
 			var sp []*core.Space
 			for _, d := range scopeSpaces(tier) {
